@@ -4,9 +4,19 @@ EXTENDS RingClient
 
 MCCompute(ix, lv, id, size, L, W) == AbstractShard(ix, lv, id, size, L, W)
 
-\* start with every instance registered (the interesting histories then fit in MaxUpd updates)
-StartRec(i) == [addr |-> 1, zone |-> IF i % 2 = 1 THEN 1 ELSE 2, tok |-> 0, reg |-> 2, ro |-> FALSE, rots |-> 0,
-                state |-> "ACTIVE", ts |-> 1]
+MinOf(S) == CHOOSE x \in S : \A y \in S : x <= y
+MaxOf(S) == CHOOSE x \in S : \A y \in S : y <= x
+StartRec(i) == [addr |-> MinOf(Addrs), zone |-> IF i % 2 = 1 THEN MinOf(Zones) ELSE MaxOf(Zones), tok |-> MaxOf(Toks),
+                reg |-> MinOf(Stamps \ {0}), ro |-> FALSE, rots |-> 0,
+                state |-> "ACTIVE", ts |-> MinOf(Beats)]
 FullDesc == [i \in Inst |-> StartRec(i)]
-MCInitDescs == {NoDesc, FullDesc}
+
+\* "update" configurations: the client starts on an empty store or with every instance registered
+\* (the interesting histories then fit in MaxUpd updates)
+NarrowInitDescs == {NoDesc, FullDesc}
+
+\* "window" configurations: the client starts on ANY combination of registration time, read-only flag
+\* and read-only time (the fields the look-back validity window is computed from)
+WideInitDescs == {[i \in Inst |-> [StartRec(i) EXCEPT !.reg = f[i][1], !.ro = f[i][2], !.rots = f[i][3]]] :
+                     f \in [Inst -> Stamps \X BOOLEAN \X Stamps]}
 =============================================================================
